@@ -29,6 +29,7 @@ type VR struct {
 	S   string    `json:"s,omitempty"`
 	Sub []*VR     `json:"sub,omitempty"`
 	T   *lat.Spec `json:"t,omitempty"`
+	R   *Recipe   `json:"r,omitempty"` // TypeR: a type of this property's recipes (Object types) as a value
 	// Via: construction route of an Arr / Hash ("" = WrapValues / WrapHash), see buildArr / buildHash
 	Via string `json:"via,omitempty"`
 	// Let (root only): nodes built once, in order (Let[i] may refer to Let[j], j < i); {k:Ref, i:n} anywhere in
@@ -129,6 +130,8 @@ func (v *VR) build(env *[]px.Value) px.Value {
 		return buildHash(v.Via, ks, vs)
 	case "Sensitive":
 		return types.WrapSensitive(v.Sub[0].build(env))
+	case "TypeR":
+		return v.R.Build()
 	}
 	// the kinds without children: as harness/lat builds them
 	return (&lat.VSpec{K: v.K, I: v.I, F: v.F, B: v.B, S: v.S, T: v.T}).Build()
